@@ -6,4 +6,4 @@ cd coq
 coq_makefile -f _CoqProject -o Makefile >/dev/null
 timeout 7200 make -j16
 cd ..
-python3 -c "import sys; sys.path.insert(0,'gen'); import lib; print(lib.build_model())"
+python3 gen/buildall.py
